@@ -2,9 +2,10 @@
  * unterminated ${".  Each input sits in a heap block of exactly strlen+1 bytes (none of these inputs can
  * grow), so ASan reports the first byte read behind the terminator.
  *   argv[1] selects the input: 1 trailing backslash, 2 trailing backslash inside single quotes,
- *   3 unterminated ${, 4 unterminated $(, 5 trailing %  (no argument: all, first failure wins) */
+ *   3 unterminated ${, 4 unterminated $(, 5 trailing %, 6 unterminated back-quote (runs "a" through
+ *   system(), harmless; only on request)   (no argument: 1-5, first failure wins) */
 #include <libast_internal.h>
-static const char *inputs[] = { "a\\", "'a\\", "${b", "$(b", "50%" };
+static const char *inputs[] = { "a\\", "'a\\", "${b", "$(b", "50%", "`a" };
 static void run(const char *in)
 {
     size_t n = strlen(in);
